@@ -22,7 +22,7 @@ ASSUMPTIONS = [
     'deleting an attribute that is currently unset (or a referential attribute) may raise or do nothing; it must '
     'not change any other attribute',
     'reading a deleted plain attribute may raise AttributeError or give None, but identically under every spelling',
-    'constructor keywords are exercised on non-referential attributes (referential keywords belong to C03)',
+    'a referential value passed to the constructor by keyword (any spelling) relates the new instance exactly when it names the existing referred instance',
 ]
 
 UNSET = '<unset>'
@@ -148,7 +148,12 @@ def apply(w, op, case):
                 # no keyword: a generated identifier, whatever it is it is one stored value
                 mod[n[which]] = new.__dict__.get(n[which])
         for which, sp, v in kw:
-            mod[n[which]] = v
+            if which == 'ref':
+                # a referential value given by keyword relates the new instance when it names the one Tq instance (key 77);
+                # any other value refers to nothing and reads as unset
+                mod['ref'] = 77 if v == 77 else None
+            else:
+                mod[n[which]] = v
         w.insts.append(new)
         w.model.append(mod)
     elif kind == 'late-define':
@@ -352,7 +357,7 @@ def run_sequence(case, names=None, value_pool=(1, 2, 0)):
         if op[0] == 'write' and types[op[1]] == 'UNIQUE_ID' and op[3] < 0:
             op = op[:3] + [op[3] + 10]       # identifiers are not negative
         elif op[0] == 'new':
-            op = op[:2] + [[[wh, sp, v + 10 if v < 0 and types[wh] == 'UNIQUE_ID' else v] for wh, sp, v in op[2]]]
+            op = op[:2] + [[[wh, sp, v + 10 if v < 0 and types.get(wh) == 'UNIQUE_ID' else v] for wh, sp, v in op[2]]]
         apply(w, op, case)
         # every spelling is read, serialized and queried after EVERY step: what a read or a query leaves behind (a memo,
         # a lookup table) must not survive the next write
@@ -385,6 +390,7 @@ def alphabet():
     ops.append(['unrelate'])
     ops.append(['new', 'aB', [['plain', 'xY', 2], ['ident', 'ID', 1]]])
     ops.append(['new', 'AB', [['plain', 'XY', 1]]])
+    ops.append(['new', 'Ab', [['ref', 'RF', 77], ['plain', 'xy', 2]]])      # referential value by keyword, not as declared
     ops.append(['late-define'])
     ops.append(['late-new', 'zK', 'v'])
     ops.append(['late-new', 'ZK', 'V'])
@@ -414,6 +420,8 @@ def long_cases(draw):
             for which in ('plain', 'ident'):
                 if draw(st.booleans()):
                     kw.append([which, draw(st.sampled_from(spellings(LONG[which]))), draw(st.integers(-3, 3))])
+            if draw(st.integers(0, 3)) == 0:
+                kw.append(['ref', draw(st.sampled_from(spellings(LONG['ref']))), draw(st.sampled_from([77, 77, 5]))])
             ops.append(['new', draw(st.sampled_from(spellings(LONG['cls']))), kw])
     return {'ops': ops, 'long': True}
 
